@@ -84,7 +84,8 @@ COff(lay, i) == IF i = 1 THEN 0 ELSE COff(lay, i - 1) + lay[i - 1][2]
 FieldIdx(lay, name) == CHOOSE i \in 1..Len(lay) : lay[i][1] = name
 HasField(lay, name) == \E i \in 1..Len(lay) : lay[i][1] = name
 WidthIn(ty, class, name) == LET lay == CLayout(ty, class) IN lay[FieldIdx(lay, name)][2]
-NatWidth(ty, name) == LET a == WidthIn(ty, 32, name) b == WidthIn(ty, 64, name)
+NatWidth(ty, name) == LET a == IF HasField(CLayout(ty, 32), name) THEN WidthIn(ty, 32, name) ELSE 0
+                          b == IF HasField(CLayout(ty, 64), name) THEN WidthIn(ty, 64, name) ELSE 0
                       IN IF a > b THEN a ELSE b
 
 \* Encode a record of field values (little-endian words of at least the field width) as the
